@@ -80,6 +80,11 @@ pub struct LifeSc {
     pub drops: Vec<DropWhat>,
     /// sync flavours: drops[i] is performed on a separate thread when bit i % 64 is set
     pub other_thread_mask: u64,
+    /// wear: after construction every node's edges are walked this many times (outgoing and
+    /// incoming), nothing else in between - whatever a library settles, resolves or caches for
+    /// read-mostly nodes must not own nodes either
+    #[serde(default)]
+    pub read_passes: usize,
 }
 
 pub struct Lifetime;
@@ -354,6 +359,20 @@ fn run_inner<F: Flavour>(
             return None;
         }
     }
+    if sc.read_passes > 0 {
+        stats.inc("runs_with_tens_of_thousands_of_read_passes");
+        let walked = caught(|| {
+            for _ in 0..sc.read_passes {
+                for x in &world.nodes {
+                    F::for_out(x, &mut |_, _, _| true);
+                    F::for_in(x, &mut |_, _, _| true);
+                }
+            }
+        });
+        if let Caught::Panic(m) | Caught::Abort(m) = walked {
+            return Some(Violation::new("panic", format!("walking the nodes' edges {} times: {m}", sc.read_passes)));
+        }
+    }
     if model.edges.iter().any(|e| e.u == e.v) {
         stats.inc("probe_structure_with_self_loop");
     }
@@ -592,7 +611,9 @@ impl Engine for Lifetime {
         if rng.chance(1, 3) {
             drops.truncate(keep);
         }
+        let read_passes = if n <= 3 && initial.len() <= 6 && !long_lists && rng.chance(1, 2500) { *rng.pick(&[256usize, 4096, 65_536, 65_536]) + rng.below(3) } else { 0 };
         LifeSc {
+            read_passes,
             flavour,
             prios,
             hash_seed: rng.next_u64(),
@@ -620,6 +641,15 @@ impl Engine for Lifetime {
 
     fn shrink(&self, sc: &LifeSc) -> Vec<LifeSc> {
         let mut out = Vec::new();
+        if sc.read_passes > 0 {
+            for r in [0, sc.read_passes / 256, sc.read_passes / 16] {
+                if r < sc.read_passes {
+                    let mut c = sc.clone();
+                    c.read_passes = r;
+                    out.push(c);
+                }
+            }
+        }
         if sc.other_thread_mask != 0 {
             let mut c = sc.clone();
             c.other_thread_mask = 0;
@@ -657,6 +687,7 @@ impl Engine for Lifetime {
     }
 
     fn size(&self, sc: &LifeSc) -> usize {
+        sc.read_passes / 64 +
         sc.ops.len() * 8 + sc.initial.len() * 4 + sc.takes.len() * 6 + sc.drops.len() * 2 + sc.prios.len() + (sc.other_thread_mask != 0) as usize
     }
 }
